@@ -250,3 +250,244 @@ Proof.
     assert (E : length (s_sorted st) - 1 = n - 1) by (unfold line in *; lia).
     rewrite E in LN. exact LN.
 Qed.
+
+(* ------------------------------------------------------------------ completeness (cycles) *)
+Definition orient (l : line) (o : bool) : line := if o then (snd l, fst l) else l.
+
+Lemma scan_finds : forall lines found prev j0 j a b,
+  length found = length lines ->
+  nth_error lines j = Some (a, b) -> nth j found false = false ->
+  (a = prev \/ b = prev) -> a <> b ->
+  (forall k a' b', k <> j -> nth_error lines k = Some (a', b') -> nth k found false = false ->
+                   a' <> prev /\ b' <> prev) ->
+  scan lines found prev j0
+  = Some (j0 + j, (if Z.eqb a prev then (a, b) else (b, a)), (if Z.eqb a prev then b else a)).
+Proof.
+  induction lines as [|[a0 b0] lr IH]; intros found prev j0 j a b HL Hl Hf Hor Hab Hoth.
+  - destruct j; discriminate.
+  - destruct found as [|f fr]; [discriminate|]. cbn [scan].
+    destruct j as [|j].
+    + cbn in Hl, Hf. injection Hl as -> ->. subst f. cbn [negb andb].
+      destruct (Z.eqb a prev) eqn:Ea.
+      * rewrite Nat.add_0_r. reflexivity.
+      * apply Z.eqb_neq in Ea. destruct Hor as [Hor | Hor]; [contradiction|].
+        subst prev. rewrite Z.eqb_refl. rewrite Nat.add_0_r. reflexivity.
+    + cbn in Hl, Hf.
+      assert (T : negb f && Z.eqb a0 prev = false /\ negb f && Z.eqb b0 prev = false).
+      { destruct f; [split; reflexivity|]. cbn [negb andb].
+        destruct (Hoth 0 a0 b0 ltac:(lia) eq_refl eq_refl) as [N1 N2].
+        split; apply Z.eqb_neq; assumption. }
+      destruct T as [T1 T2]. rewrite T1, T2.
+      rewrite (IH fr prev (S j0) j a b); try assumption.
+      * replace (S j0 + j) with (j0 + S j) by lia. reflexivity.
+      * cbn in HL. lia.
+      * intros k a' b' Hk Hlk Hfk. apply (Hoth (S k) a' b'); [lia|exact Hlk|exact Hfk].
+Qed.
+
+Section Cycle.
+  Variable lines : list line.
+  Let n := length lines.
+  Variables (perm : list nat) (os : list bool) (es : list line).
+
+  Hypothesis Hperm : Permutation perm (seq 0 n).
+  Hypothesis Hes_len : length es = n.
+  Hypothesis Hes : forall k, k < n -> nth k es dl = orient (nth (nth k perm 0) lines dl) (nth k os false).
+  Hypothesis Hchain : forall k, S k < n -> snd (nth k es dl) = fst (nth (S k) es dl).
+  Hypothesis Hclose : fst (nth 0 es dl) = snd (nth (n - 1) es dl).
+  Hypothesis Hnodup : NoDup (map fst es).
+  Hypothesis Hnoloop : forall l, In l lines -> fst l <> snd l.
+  Hypothesis Hstart : nth 0 perm 0 = 0 /\ nth 0 os false = false.
+
+  Lemma perm_len : length perm = n.
+  Proof. rewrite (Permutation_length Hperm). apply seq_length. Qed.
+
+  Lemma perm_lt : forall k, k < n -> nth k perm 0 < n.
+  Proof.
+    intros k Hk. assert (In (nth k perm 0) perm) by (apply nth_In; rewrite perm_len; exact Hk).
+    apply (Permutation_in _ Hperm) in H. apply in_seq in H. lia.
+  Qed.
+
+  Lemma perm_inj : forall k1 k2, k1 < n -> k2 < n -> nth k1 perm 0 = nth k2 perm 0 -> k1 = k2.
+  Proof.
+    intros k1 k2 H1 H2. apply NoDup_nth; try (rewrite perm_len; assumption).
+    apply (Permutation_NoDup (Permutation_sym Hperm)). apply seq_NoDup.
+  Qed.
+
+  Lemma perm_surj : forall j, j < n -> exists k, k < n /\ nth k perm 0 = j.
+  Proof.
+    intros j Hj. assert (In j perm).
+    { apply (Permutation_in _ (Permutation_sym Hperm)). apply in_seq. lia. }
+    apply (In_nth _ _ 0) in H. destruct H as (k & Hk & E). rewrite perm_len in Hk. eauto.
+  Qed.
+
+  Lemma fst_inj : forall k1 k2, k1 < n -> k2 < n ->
+    fst (nth k1 es dl) = fst (nth k2 es dl) -> k1 = k2.
+  Proof.
+    intros k1 k2 H1 H2 E.
+    assert (E' : nth k1 (map fst es) (fst dl) = nth k2 (map fst es) (fst dl))
+      by (rewrite !map_nth; exact E).
+    revert E'. apply (proj1 (NoDup_nth (map fst es) (fst dl)) Hnodup);
+      rewrite map_length; pose proof Hes_len as HL; unfold n, line in *; lia.
+  Qed.
+
+  (* the state after i columns have been placed along the traversal *)
+  Definition along (st : sstate) (i : nat) : Prop :=
+    length (s_sorted st) = n /\ length (s_found st) = n /\ length (s_ind st) = n /\
+    (forall k, k < i -> nth k (s_sorted st) dl = nth k es dl) /\
+    (forall k, k < i -> nth k (s_ind st) 0 = nth k perm 0) /\
+    (forall j, j < n -> (nth j (s_found st) false = true <-> exists k, k < i /\ nth k perm 0 = j)) /\
+    s_prev st = snd (nth (i - 1) es dl).
+
+  Lemma along_step : forall st i, 1 <= i -> i < n -> along st i ->
+    along (match scan lines (s_found st) (s_prev st) 0 with
+           | Some (j, l, np) =>
+               {| s_sorted := set_nth (s_sorted st) i l;
+                  s_found := set_nth (s_found st) j true;
+                  s_prev := np;
+                  s_ind := set_nth (s_ind st) i j |}
+           | None => st
+           end) (S i).
+  Proof.
+    intros [sorted found prev ind] i Hi1 Hin (L1 & L2 & L3 & A1 & A2 & A3 & A4).
+    cbn [s_sorted s_found s_prev s_ind] in *.
+    set (j := nth i perm 0).
+    assert (Hj : j < n) by (apply perm_lt; exact Hin).
+    destruct (nth j lines dl) as [a b] eqn:Eab.
+    assert (Hlj : nth_error lines j = Some (a, b)).
+    { rewrite <- Eab. apply nth_error_nth'. exact Hj. }
+    assert (Hei : nth i es dl = orient (a, b) (nth i os false)).
+    { rewrite (Hes i Hin). fold j. rewrite Eab. reflexivity. }
+    assert (Hprev : fst (nth i es dl) = prev).
+    { rewrite A4. symmetry. replace i with (S (i - 1)) at 2 by lia. apply Hchain. lia. }
+    assert (Hab : a <> b).
+    { apply (Hnoloop (a, b)). rewrite <- Eab. apply nth_In. exact Hj. }
+    assert (Hunf : nth j found false = false).
+    { destruct (nth j found false) eqn:E; [|reflexivity]. exfalso.
+      apply (A3 j Hj) in E. destruct E as (k & Hk & Ek).
+      assert (k = i) by (apply perm_inj; try lia; exact Ek). lia. }
+    assert (Hor : a = prev \/ b = prev).
+    { rewrite Hei in Hprev. unfold orient in Hprev. destruct (nth i os false); cbn in Hprev; auto. }
+    assert (Hoth : forall k a' b', k <> j -> nth_error lines k = Some (a', b') ->
+                     nth k found false = false -> a' <> prev /\ b' <> prev).
+    { intros k a' b' Hkj Hlk Hfk.
+      assert (Hkn : k < n) by (apply nth_error_Some; rewrite Hlk; discriminate).
+      destruct (perm_surj k Hkn) as (k' & Hk'n & Ek').
+      assert (Hk'i : i < k').
+      { destruct (Nat.lt_trichotomy k' i) as [L | [E | L]]; [| |exact L].
+        - exfalso. assert (nth k found false = true) by (apply (A3 k Hkn); eauto). congruence.
+        - exfalso. apply Hkj. subst k'. unfold j. symmetry. exact Ek'. }
+      assert (Hek : nth k' es dl = orient (a', b') (nth k' os false)).
+      { rewrite (Hes k' Hk'n), Ek'. f_equal. apply nth_error_nth with (d := dl) in Hlk. exact Hlk. }
+      (* the two entries of this line are fst e_k' and snd e_k' *)
+      assert (F1 : fst (nth k' es dl) <> prev).
+      { intro E. rewrite <- Hprev in E. apply fst_inj in E; lia. }
+      assert (F2 : snd (nth k' es dl) <> prev).
+      { intro E. rewrite <- Hprev in E.
+        destruct (Nat.eq_dec k' (n - 1)) as [El | Nl].
+        - subst k'. rewrite <- Hclose in E. apply fst_inj in E; lia.
+        - rewrite (Hchain k') in E by lia. apply fst_inj in E; lia. }
+      rewrite Hek in F1, F2. unfold orient in F1, F2.
+      destruct (nth k' os false); cbn in F1, F2; split; assumption. }
+    rewrite (scan_finds lines found prev 0 j a b L2 Hlj Hunf Hor Hab Hoth).
+    cbn [Nat.add].
+    assert (El : (if Z.eqb a prev then (a, b) else (b, a)) = nth i es dl).
+    { rewrite Hei. unfold orient. rewrite Hei in Hprev. unfold orient in Hprev.
+      destruct (nth i os false); cbn in Hprev.
+      - assert (T : Z.eqb a prev = false) by (apply Z.eqb_neq; congruence). rewrite T. reflexivity.
+      - assert (T : Z.eqb a prev = true) by (apply Z.eqb_eq; exact Hprev). rewrite T. reflexivity. }
+    assert (Enp : (if Z.eqb a prev then b else a) = snd (nth i es dl)).
+    { rewrite <- El. destruct (Z.eqb a prev); reflexivity. }
+    unfold along. cbn [s_sorted s_found s_prev s_ind]. rewrite !set_nth_length.
+    refine (conj L1 (conj L2 (conj L3 (conj _ (conj _ (conj _ _)))))).
+    - intros k Hk. destruct (Nat.eq_dec k i) as [-> | N].
+      + rewrite nth_set_nth_eq by lia. exact El.
+      + rewrite nth_set_nth_neq by exact N. apply A1. lia.
+    - intros k Hk. destruct (Nat.eq_dec k i) as [-> | N].
+      + rewrite nth_set_nth_eq by lia. reflexivity.
+      + rewrite nth_set_nth_neq by exact N. apply A2. lia.
+    - intros j' Hj'. destruct (Nat.eq_dec j' j) as [-> | N].
+      + rewrite nth_set_nth_eq by lia. split; [intros _; exists i; split; [lia|reflexivity]|reflexivity].
+      + rewrite nth_set_nth_neq by exact N. rewrite (A3 j' Hj'). split.
+        * intros (k & Hk & Ek). exists k. split; [lia|exact Ek].
+        * intros (k & Hk & Ek). destruct (Nat.eq_dec k i) as [-> | Nk]; [exfalso; apply N; symmetry; exact Ek|].
+          exists k. split; [lia|exact Ek].
+    - replace (S i - 1) with i by lia. exact Enp.
+  Qed.
+
+  Lemma along_loop : forall fuel st i, 1 <= i -> i + fuel <= n -> along st i ->
+    along (sort_loop lines st i fuel) (i + fuel).
+  Proof.
+    induction fuel as [|fuel IH]; intros st i Hi Hle H; cbn [sort_loop].
+    - replace (i + 0) with i by lia. exact H.
+    - replace (i + S fuel) with (S i + fuel) by lia. apply IH; [lia|lia|].
+      apply along_step; [exact Hi|lia|exact H].
+  Qed.
+End Cycle.
+
+Lemma forallb_nth_true : forall l : list bool,
+  (forall j, j < length l -> nth j l false = true) -> forallb (fun b => b) l = true.
+Proof.
+  induction l as [|b l IH]; intro H; cbn [forallb]; [reflexivity|].
+  rewrite (H 0 ltac:(cbn; lia) : b = true). cbn [andb]. apply IH.
+  intros j Hj. apply (H (S j)). cbn. lia.
+Qed.
+
+(* a single cycle, given in any order with any flips: the call succeeds and returns the
+   traversal that starts with the first input pair as given *)
+Lemma sort_point_pairs_complete_cycle : forall lines chk perm os es,
+  let n := length lines in
+  Permutation perm (seq 0 n) -> length es = n ->
+  (forall k, k < n -> nth k es dl = orient (nth (nth k perm 0) lines dl) (nth k os false)) ->
+  (forall k, S k < n -> snd (nth k es dl) = fst (nth (S k) es dl)) ->
+  fst (nth 0 es dl) = snd (nth (n - 1) es dl) ->
+  NoDup (map fst es) ->
+  (forall l, In l lines -> fst l <> snd l) ->
+  nth 0 perm 0 = 0 /\ nth 0 os false = false ->
+  1 <= n ->
+  sort_point_pairs lines chk true = SOk es perm.
+Proof.
+  intros lines chk perm os es n Hperm Hel Hes Hchain Hclose Hnd Hnl Hstart Hn1.
+  assert (Hl0 : exists l0 lr, lines = l0 :: lr).
+  { destruct lines as [|l0 lr]; [cbn in n; lia|eauto]. }
+  destruct Hl0 as (l0 & lr & El).
+  assert (Hpos : 0 < length lines) by (unfold n in Hn1; lia).
+  assert (E0 : nth 0 es dl = l0).
+  { rewrite (Hes 0 ltac:(lia)). destruct Hstart as [-> ->]. rewrite El. reflexivity. }
+  unfold sort_point_pairs. cbv zeta. cbn [negb]. fold n.
+  match goal with |- match ?m with _ => _ end = _ =>
+    replace m with (Some (l0, 0, chk)) by (rewrite El; reflexivity) end.
+  match goal with |- context [sort_loop lines ?s 1 (n - 1)] => set (st0 := s) end.
+  assert (A0 : along lines perm es st0 1).
+  { unfold along, st0. cbn [s_sorted s_found s_prev s_ind].
+    rewrite !set_nth_length, !map_length. fold n.
+    refine (conj eq_refl (conj eq_refl (conj eq_refl (conj _ (conj _ (conj _ _)))))).
+    - intros k Hk. assert (k = 0) by lia. subst k.
+      rewrite nth_set_nth_eq by (rewrite map_length; unfold line in *; lia). symmetry. exact E0.
+    - intros k Hk. assert (k = 0) by lia. subst k.
+      rewrite nth_set_nth_eq by (rewrite map_length; unfold line in *; lia). symmetry. apply Hstart.
+    - intros j Hj. destruct (Nat.eq_dec j 0) as [-> | N].
+      + rewrite nth_set_nth_eq by (rewrite map_length; unfold line in *; lia).
+        split; [intros _; exists 0; split; [lia|apply Hstart]|reflexivity].
+      + rewrite nth_set_nth_neq by exact N. rewrite nth_map_false. split; [discriminate|].
+        intros (k & Hk & Ek). assert (k = 0) by lia. subst k.
+        destruct Hstart as [S0 _]. congruence.
+    - cbn [Nat.sub]. rewrite E0. reflexivity. }
+  pose proof (along_loop lines perm os es Hperm Hel Hes Hchain Hclose Hnd Hnl Hstart (n - 1) st0 1
+                         ltac:(lia) ltac:(fold n; lia) A0) as A.
+  replace (1 + (n - 1)) with n in A by lia.
+  set (st := sort_loop lines st0 1 (n - 1)) in *.
+  destruct A as (L1 & L2 & L3 & A1 & A2 & A3 & A4). fold n in L1, L2, L3.
+  assert (AF : forallb (fun b => b) (s_found st) = true).
+  { apply forallb_nth_true. intros j Hj. rewrite L2 in Hj. apply (A3 j Hj).
+    apply (perm_surj lines perm os es Hperm Hel Hstart j Hj). }
+  rewrite AF. cbn [negb].
+  assert (EC : Z.eqb (fst l0) (snd (last (s_sorted st) (0, 0)%Z)) = true).
+  { apply Z.eqb_eq. rewrite my_last_nth. change (0, 0)%Z with dl. rewrite L1, (A1 (n - 1)) by lia.
+    rewrite <- E0. exact Hclose. }
+  rewrite EC. cbn [negb]. rewrite andb_false_r.
+  f_equal.
+  - apply (nth_ext _ _ dl dl); [rewrite L1, Hel; reflexivity|].
+    intros k Hk. rewrite L1 in Hk. apply A1. exact Hk.
+  - apply (nth_ext _ _ 0 0); [rewrite L3; symmetry; apply (perm_len lines perm Hperm)|].
+    intros k Hk. rewrite L3 in Hk. apply A2. exact Hk.
+Qed.
